@@ -368,7 +368,7 @@ class Gen:
         for c in shape:
             if c == "f":
                 f = self.pick(["fld", "Member1", "x", "items", "zq"])
-                toks += [O(".", True), I(f, True)]
+                toks += [O("."), I(f)]
                 nf = ["field", nf, f.lower()]
             else:
                 subs = []
